@@ -186,6 +186,96 @@ def o1_reload(chk, prog):
     chk.end(ob)
 
 
+# ------------------------------------------------------------------------------------------------ O2 pool reuse / removal
+@expectation('c14_pools')
+def c14_pools():
+    def f(res):
+      bad = []
+      for r, mode in zip(res, ('a reload that only removes a pool', 'a reload that removes one pool and changes another')):
+        if 'panic' in r or 'error' in r:
+            return ('panic' in r), 'native: %r' % (r,)
+        if r['removed_still_served']:
+            bad.append(mode + ':')
+            bad.append('a pool removed from the configuration is still served after the reload')
+        if not r['unchanged_reused']:
+            bad.append('an unchanged pool was rebuilt (its connections are dropped)')
+        if not r['changed_rebuilt']:
+            bad.append('a changed pool kept its old definition')
+      return bool(bad), '; '.join(bad) or 'native reload keeps unchanged pools, rebuilds changed ones and drops removed ones'
+    return f
+
+
+def o2_pools(chk, prog):
+    from checks import fromconfig as FC
+    from checks.c07 import mk_pool, mk_addr
+    ob = chk.begin('O2-pools', 'ConnectionPool::from_config (real coroutine, nothing connected) with the previous pool map holding a pool for the same '
+                   '(database, user) whose definition hash is symbolic, plus a pool that is no longer configured: afterwards exactly the configured '
+                   'pools are registered; the old pool object is kept iff its hash equals the new definition\'s, otherwise a new pool with the new '
+                   'hash is registered; the removed pool is gone', {})
+    ip = chk.interp(prog, 'O2-pools')
+    install_stats_noops(ip)
+
+    def harness(ip_):
+        cfg = FC.base_config(ip_, prog)
+        srv = [FC.mk_srvcfg(ip_, prog, rstring('h'), BV(16, 5432), BV(64, 1))]
+        pool = FC.mk_pool_cfg(ip_, prog, [('0', srv, None)])
+        pm = MapV('hashmap')
+        pm.entries.append([rstring('db'), Cell(pool, 'pool')])
+        setf(prog, cfg, 'Config', 'pools', pm)
+        FC.install(ip_, cfg)
+        # previous POOLS: (db,u) with symbolic hash, (gone,u)
+        old_hash = ip_.fresh(64, 'old_hash')
+        old_db, _ = mk_pool(ip_, prog, [[mk_addr(ip_, prog, 0, 1)]], [MapV('hashmap')])
+        setf(prog, old_db, 'ConnectionPool', 'config_hash', old_hash)
+        old_gone, _ = mk_pool(ip_, prog, [[mk_addr(ip_, prog, 0, 1)]], [MapV('hashmap')])
+        m = FC.current_pools(ip_)
+
+        def ident(db, user):
+            names = prog.src.structs['PoolIdentifier']
+            vals = {'db': rstring(db), 'user': rstring(user)}
+            return Agg([vals[n] for n in names], 'PoolIdentifier', list(names))
+        marker_db = getf(prog, old_db, 'ConnectionPool', 'databases')
+        m.entries.append([ident('db', 'u'), Cell(old_db, 'old_db')])
+        m.entries.append([ident('gone', 'u'), Cell(old_gone, 'old_gone')])
+        try:
+            FC.run_from_config(ip_, prog)
+        except Panic as p:
+            raise Inconclusive('from_config panic: ' + p.msg)
+        ob.nontrivial += 1
+        ents = FC.pool_entries(ip_, prog)
+        names = sorted((d, u) for d, u, _ in ents)
+        problems = []
+        if ('gone', 'u') in names:
+            problems.append(('removed-pool-served', 'the pool that was removed from the configuration is still registered'))
+        if ('db', 'u') not in names:
+            problems.append(('configured-pool-missing', 'the configured pool is not registered'))
+        else:
+            cp = [c for d, u, c in ents if d == 'db'][0]
+            new_hash = getf(prog, cp, 'ConnectionPool', 'config_hash')
+            reused = getf(prog, cp, 'ConnectionPool', 'databases') is marker_db
+            # the reference decision: same definition <=> hashes equal
+            hashes = ip_.env.get('hash_inputs')
+            same = decide(ip_, old_hash.z() == last_hash(ip_)) if last_hash(ip_) is not None else None
+            if same is True and not reused:
+                problems.append(('unchanged-pool-rebuilt', 'the pool definition did not change but a new pool replaced it'))
+            if same is False and reused:
+                problems.append(('changed-pool-kept', 'the pool definition changed but the old pool is kept'))
+            if same is False and not reused and ip_.model_for(new_hash.z() != last_hash(ip_)) is not None:
+                problems.append(('wrong-hash', 'the rebuilt pool does not carry the hash of its definition'))
+        for k, what in problems:
+            chk.report(ob, 'C14/O2/' + k, 'reload: ' + what, {}, {'commands': [{'op': 'reload_pools', 'mode': 'remove_only'}, {'op': 'reload_pools', 'mode': 'mixed'}], 'expect': ['c14_pools']})
+        if len(ob.samples) < 2:
+            ob.samples.append({'registered': names})
+    ip.explore(harness)
+    chk.absorb(ob, ip)
+    chk.end(ob)
+
+
+def last_hash(ip_):
+    h = ip_.env.get('last_hash_value')
+    return h.z() if h is not None else None
+
+
 def main(chk):
     chk.explanation = (
         'Solver-based checking of the "invalid file changes nothing" half of C14, executed from MIR: config::parse and config::reload_config '
@@ -200,6 +290,7 @@ def main(chk):
     prog = chk.program('on')
     o1_parse(chk, prog)
     o1_reload(chk, prog)
+    o2_pools(chk, prog)
 
 
 if __name__ == '__main__':
